@@ -36,14 +36,21 @@ Lemma nonneg_cabfh : nonneg_ws cabfh_widths. Proof. repeat constructor; lia. Qed
 (* the three flag tests leave exactly two values of the 16-bit flags word (decided by enumeration) *)
 Definition flags_check (x : Z) : bool :=
   implb (negb (cab_multipart x) && negb (cab_unsupported_flags x)) (if cab_has_reserve x then x =? 4 else x =? 0).
-Lemma flags_all : forallb flags_check (map Z.of_nat (seq 0 (Z.to_nat 65536))) = true.
+Fixpoint all_from (fuel : nat) (x : Z) : bool :=
+  match fuel with O => true | S k => flags_check x && all_from k (x + 1) end.
+Lemma all_from_spec fuel : forall x0 x, all_from fuel x0 = true -> x0 <= x < x0 + Z.of_nat fuel -> flags_check x = true.
+Proof.
+  induction fuel as [|k IH]; intros x0 x H Hx; [lia|].
+  cbn [all_from] in H. apply andb_true_iff in H as [H1 H2].
+  destruct (Z.eq_dec x x0) as [->|Hn]; [exact H1|]. apply (IH (x0 + 1)); [exact H2|lia].
+Qed.
+Lemma flags_all : all_from (Z.to_nat 65536) 0 = true.
 Proof. vm_compute. reflexivity. Qed.
 Lemma flags_cases x : 0 <= x < 65536 -> cab_multipart x = false -> cab_unsupported_flags x = false ->
   if cab_has_reserve x then x = 4 else x = 0.
 Proof.
-  intros Hx H1 H2. pose proof flags_all as A. rewrite forallb_forall in A. specialize (A x).
-  assert (I : In x (map Z.of_nat (seq 0 (Z.to_nat 65536)))).
-  { apply in_map_iff. exists (Z.to_nat x). split; [lia|]. apply in_seq. lia. }
+  intros Hx H1 H2. pose proof (all_from_spec _ 0 x flags_all) as A.
+  assert (I : 0 <= x < 0 + Z.of_nat (Z.to_nat 65536)) by lia.
   specialize (A I). unfold flags_check in A. rewrite H1, H2 in A. cbn [negb andb implb] in A.
   destruct (cab_has_reserve x); lia.
 Qed.
@@ -190,8 +197,8 @@ Proof.
         repeat match goal with R : in_range _ _ |- _ => inversion R; clear R; subst | R : Forall2 _ _ _ |- _ => inversion R; clear R; subst end.
         cbn [fld nth cabsh_ix_SignatureSize]. lia. }
       split.
-      + rewrite Ea. rewrite <- (ztake_zdrop (fld cabsh_ix_SignatureSize (res_sv res)) (zdrop D s2)) at 1. rewrite <- Eb, app_nil_r. reflexivity.
-      + rewrite Ea. apply zlen_ztake. lia.
+      + rewrite <- (ztake_zdrop (fld cabsh_ix_SignatureSize (res_sv res)) (zdrop D s2)) at 1. rewrite <- Eb, app_nil_r. reflexivity.
+      + apply zlen_ztake. lia.
     - cbn [bind fst snd] in H. destruct (zdrop D s2) as [|? ?] eqn:E4; try discriminate.
       inversion H; subst p; clear H. exists []. repeat split. }
   destruct Sg as (sig & -> & Sg1 & Sg2).
